@@ -115,6 +115,22 @@ def _solve_one(args):
     except z3.Z3Exception as e:
         raise RuntimeError("SMT-LIB round trip failed: %s" % str(e)[:400])
     hyps, goal = list(asserts[:-1]), asserts[-1].arg(0)
+    if z3.is_quantifier(goal) and goal.is_forall():
+        parts = _split_conj_hyp(goal)
+        if 1 < len(parts) <= 40:
+            goal = z3.And(*parts)
+    if z3.is_and(goal) and any(z3.is_quantifier(c_) for c_ in goal.children()) and len(goal.children()) <= 40:
+        # a conjunction with quantified conjuncts: every conjunct is its own obligation
+        worst, be_all, info_all = "discharged", set(), []
+        for c_ in goal.children():
+            st, be, dt, info = _solve_one((vc_to_smt2(hyps, c_), t_z3, t_cvc5, use_cvc5, poly, derived))
+            be_all.add(be)
+            if st == "refuted":
+                return st, be, time.time() - t0, info
+            if st != "discharged":
+                worst = "undecided"
+                info_all.append(info)
+        return worst, "+".join(sorted(x for x in be_all if x)), time.time() - t0, "; ".join(info_all)[:300]
     # A => B as goal: A joins the hypotheses (for the polynomial back end)
     phyps, pgoal = list(hyps), goal
     while z3.is_implies(pgoal):
@@ -140,8 +156,13 @@ def _solve_one(args):
                 return "discharged", "groebner", time.time() - t0, how
             eq_goal = False  # already tried
     # stage A: without the hypotheses that constrain nonlinear polynomials (sound: fewer hypotheses)
-    lin_hyps = [h for h in hyps if not is_nl_constraint(h)]
-    if len(lin_hyps) != len(hyps) and not is_nl_constraint(goal):
+    gsy = _usyms(goal)
+    lin_hyps = []
+    for h0 in hyps:
+        for h in _split_conj_hyp(h0):
+            if not is_nl_constraint(h) or (_usyms(h) <= gsy):
+                lin_hyps.append(h)
+    if len(lin_hyps) != len(hyps):
         okA = _split_last(lin_hyps, goal, min(t_z3, 10000))
         if okA:
             return "discharged", "z3+split", time.time() - t0, okA
@@ -151,6 +172,10 @@ def _solve_one(args):
     ok = _split_last(hyps, goal, min(t_z3, 4000))
     if ok:
         return "discharged", "z3+split", time.time() - t0, ok
+    if poly and z3.is_quantifier(goal):
+        ok, how = _with_alarm(40, _poly_quantified, hyps, goal)
+        if ok:
+            return "discharged", "groebner", time.time() - t0, "instantiated at a Skolem index; " + how
     r, dt, info = _z3_check(smt2, t_z3)
     if r == "unsat":
         return "discharged", "z3", time.time() - t0, info
@@ -213,6 +238,37 @@ def _split_last(hyps, goal, t_ms):
         if s_.check() != z3.unsat:
             return None
     return "case split on %s = %s - 1" % (v, str(H)[:40])
+
+
+def _split_conj_hyp(h):
+    """forall x. G => (c1 /\ ... /\ cn)  as  n hypotheses  forall x. G => ci  (and plain conjunctions likewise)"""
+    if z3.is_and(h):
+        out = []
+        for c_ in h.children():
+            out += _split_conj_hyp(c_)
+        return out
+    if z3.is_quantifier(h) and h.is_forall():
+        b = h.body()
+        g, concl = (b.arg(0), b.arg(1)) if z3.is_implies(b) else (None, b)
+        if z3.is_and(concl) and concl.num_args() > 1:
+            names = [z3.Const(h.var_name(i), h.var_sort(i)) for i in range(h.num_vars())]
+            pats = []
+            try:
+                for i in range(h.num_patterns()):
+                    pt = h.pattern(i)
+                    pats.append(z3.substitute_vars(pt, *reversed(names)) if not z3.is_pattern(pt) else pt)
+            except Exception:
+                pats = []
+            from . import sym as _sym
+            out = []
+            for c_ in concl.children():
+                body = z3.substitute_vars(z3.Implies(g, c_) if g is not None else c_, *reversed(names))
+                try:
+                    out.append(_sym.forall_t(names, body))
+                except z3.Z3Exception:
+                    return [h]
+            return out
+    return [h]
 
 
 def _arith_nl(t):
@@ -393,8 +449,90 @@ def _to_sympy(t, symtab):
         return symtab[key]
 
 
+def _poly_quantified(hyps, goal, max_hyp_eqs=60):
+    """forall k. G(k) => eqs(k)  from hypotheses that include  forall j. Gh(j) => eqs_h(j):
+    Skolemise k, instantiate the quantified equality hypotheses at the Skolem index (their guards are checked with
+    z3 on the light hypotheses), then ideal membership on the ground polynomial equalities."""
+    g = goal
+    if not (z3.is_quantifier(g) and g.is_forall() and g.num_vars() == 1):
+        return False, "not a single-variable universal goal"
+    k0 = z3.Int("sk!poly")
+    body = z3.substitute_vars(g.body(), k0)
+    if not z3.is_implies(body):
+        return False, "no guard"
+    guard, concl = body.arg(0), body.arg(1)
+    if _collect_eqs(concl) is None:
+        return False, "conclusion is not a conjunction of equalities"
+    flat = []
+    for h in hyps:
+        if z3.is_and(h) and any(z3.is_quantifier(c_) for c_ in h.children()):
+            flat.extend(h.children())
+        else:
+            flat.append(h)
+    hyps = flat
+    light = [h for h in hyps if not z3.is_quantifier(h) and not is_nl_constraint(h) and not _arith_nl(h)]
+    ground = [h for h in hyps if not z3.is_quantifier(h)]
+    ground += list(guard.children()) if z3.is_and(guard) else [guard]
+    light = light + (list(guard.children()) if z3.is_and(guard) else [guard])
+    for h in hyps:
+        if not (z3.is_quantifier(h) and h.is_forall() and h.num_vars() == 1):
+            continue
+        hb = z3.substitute_vars(h.body(), k0)
+        if z3.is_implies(hb):
+            gh, bh = hb.arg(0), hb.arg(1)
+        else:
+            gh, bh = z3.BoolVal(True), hb
+        if _collect_eqs(bh) is None:
+            # keep the equality conjuncts of a mixed conjunction
+            if z3.is_and(bh):
+                eqs_only = [c_ for c_ in bh.children() if _collect_eqs(c_) is not None]
+                if not eqs_only:
+                    continue
+                bh = z3.And(*eqs_only)
+            else:
+                continue
+        s_ = z3.Solver()
+        s_.set("timeout", 2000)
+        for x in light:
+            s_.add(x)
+        s_.add(z3.Not(gh))
+        if s_.check() == z3.unsat:
+            ground.append(bh)
+    return poly_discharge(ground, concl, True, max_hyp_eqs)
+
+
+def _usyms(t):
+    acc = set()
+    stack = [t]
+    seen = set()
+    while stack:
+        x = stack.pop()
+        if x.get_id() in seen:
+            continue
+        seen.add(x.get_id())
+        if z3.is_quantifier(x):
+            stack.append(x.body())
+        elif z3.is_app(x):
+            if x.decl().kind() == z3.Z3_OP_UNINTERPRETED:
+                acc.add(x.decl().name())
+            stack.extend(x.children())
+    return acc
+
+
 def poly_discharge(hyps, goal, use_groebner=True, max_hyp_eqs=40, timeout_s=30):
-    """returns (ok, how).  Only ever answers 'proved' (ok=True) or 'don't know'."""
+    """returns (ok, how).  Only ever answers 'proved' (ok=True) or 'don't know'.
+    With Groebner bases: first with the hypotheses that share a symbol with the goal, then with all."""
+    if use_groebner and len(hyps) > 12:
+        gs = _usyms(goal)
+        direct = [h for h in hyps if not z3.is_quantifier(h) and (_usyms(h) & gs)]
+        if 0 < len(direct) < len(hyps):
+            ok, how = _poly_discharge(direct, goal, True, max_hyp_eqs, all_hyps=hyps)
+            if ok:
+                return ok, how
+    return _poly_discharge(hyps, goal, use_groebner, max_hyp_eqs)
+
+
+def _poly_discharge(hyps, goal, use_groebner=True, max_hyp_eqs=40, all_hyps=None):
     import sympy
     eqs = _collect_eqs(goal)
     if eqs is None:
@@ -415,12 +553,18 @@ def poly_discharge(hyps, goal, use_groebner=True, max_hyp_eqs=40, timeout_s=30):
     inv_rel = []
 
     def nonzero(zt):
-        s_ = z3.Solver()
-        s_.set("timeout", 3000)
-        for h in hyps:
-            s_.add(h)
-        s_.add(zt == 0)
-        return s_.check() == z3.unsat
+        # first with the quantifier-free, linear hypotheses only (fast), then with all of them
+        every = all_hyps if all_hyps is not None else hyps
+        light = [h for h in every if not z3.is_quantifier(h) and not is_nl_constraint(h) and not _arith_nl(h)]
+        for hs in (light, every):
+            s_ = z3.Solver()
+            s_.set("timeout", 3000)
+            for h in hs:
+                s_.add(h)
+            s_.add(zt == 0)
+            if s_.check() == z3.unsat:
+                return True
+        return False
     for zt, dpoly, invsym in denoms:
         if not nonzero(zt):
             return False, "denominator not provably non-zero"
@@ -455,6 +599,80 @@ def poly_discharge(hyps, goal, use_groebner=True, max_hyp_eqs=40, timeout_s=30):
 _GB_CACHE = {}
 
 
+def _definitions_only(goals, polys, max_rounds=400):
+    """goal polynomials become 0 after substituting definitional hypotheses (v = expr) into them -- no Groebner
+    basis needed; the non-definitional hypotheses (constraints such as orthonormality) are not used"""
+    import sympy
+    goals = [g for g in goals if g != 0]
+    defs = []
+    for p_ in polys:
+        if p_ == 0:
+            continue
+        try:
+            pp = sympy.Poly(p_, *sorted(p_.free_symbols, key=lambda s_: s_.name))
+        except Exception:
+            continue
+        for v in pp.gens:
+            if pp.degree(v) != 1:
+                continue
+            coef = pp.coeff_monomial(v)
+            if coef == 0 or not sympy.sympify(coef).is_number:
+                continue
+            rest = sympy.expand(p_ - coef * v)
+            if v in rest.free_symbols:
+                continue
+            defs.append((v, sympy.expand(-rest / coef)))
+            break
+    if not defs:
+        return None
+    table = {}
+    for v, e in defs:
+        table.setdefault(v, e)
+    for _ in range(max_rounds):
+        syms = set().union(*[g.free_symbols for g in goals]) if goals else set()
+        hit = [v for v in syms if v in table]
+        if not hit:
+            break
+        sub = {v: table[v] for v in hit}
+        goals = [sympy.expand(g.subs(sub)) for g in goals]
+        goals = [g for g in goals if g != 0]
+        if not goals:
+            return "substitution of %d definitions" % len(table)
+    return None
+
+
+def _direct_attempt(goals, polys, max_hyp_eqs):
+    import sympy
+    goals = [g for g in goals if g != 0]
+    if not goals:
+        return "identity"
+    gsyms0 = set().union(*[g.free_symbols for g in goals])
+    direct = [q for q in polys if q != 0 and q.free_symbols and q.free_symbols <= gsyms0]
+    if not direct or len(direct) > max_hyp_eqs:
+        return None
+    comps0 = []
+    for q in direct:
+        fs = set(q.free_symbols)
+        merged = [c_ for c_ in comps0 if c_[0] & fs]
+        for c_ in merged:
+            comps0.remove(c_)
+            fs |= c_[0]
+        comps0.append((fs, [q] + [x for c_ in merged for x in c_[1]]))
+    basis0 = []
+    try:
+        for fs, qs in comps0:
+            key = tuple(sorted(str(q) for q in qs))
+            if key not in _GB_CACHE:
+                _GB_CACHE[key] = list(sympy.groebner(qs, *sorted(fs, key=lambda s_: s_.name), order="grevlex").exprs)
+            basis0 += _GB_CACHE[key]
+        gens0 = sorted(gsyms0, key=lambda s_: s_.name)
+        if all(sympy.reduced(g, basis0, *gens0, order="grevlex")[1] == 0 for g in goals):
+            return "groebner(%d direct hyps, %d components)" % (len(direct), len(comps0))
+    except Exception:
+        return None
+    return None
+
+
 def _ideal_membership(diffs, hyp_polys, max_hyp_eqs=80):
     """diffs all in the ideal generated by hyp_polys?  Steps: (1) eliminate variables that a hypothesis defines
     linearly (v = expr), (2) keep the hypotheses connected to the goal, (3) Groebner basis per connected
@@ -463,6 +681,16 @@ def _ideal_membership(diffs, hyp_polys, max_hyp_eqs=80):
     import sympy
     polys = [sympy.expand(p) for p in hyp_polys]
     goals = list(diffs)
+    # (0) cheap first attempt: only the hypotheses over the goal's own symbols, no elimination
+    ok0 = _direct_attempt(goals, polys, max_hyp_eqs)
+    if ok0:
+        return True, ok0
+    # (0b) definitions only: substitute every hypothesis of the form v = expr (v linear, constant coefficient)
+    okd = _definitions_only(goals, polys)
+    if okd:
+        return True, okd
+    if len(polys) > 60:
+        return False, "too many hypothesis equalities for elimination (%d)" % len(polys)
     # (1) linear definitions
     for _round in range(200):
         done = True
